@@ -19,7 +19,10 @@ BOUNDS = {
                   zero_patterns="all off-diagonal zero patterns (mirrored for the symmetric classes)",
                   histories="11 hand-picked histories of <= 4 calls (solve N/T/H with new / repeated / scaled / summed / "
                             "new+multiple / zero / complex / 2-column block right-hand sides, one with a second update)",
-                  tol="wrapper tolerance 0 (reuse <=> exactly zero residual in exact arithmetic) and 1e-7"),
+                  tol="wrapper tolerance 0 (reuse <=> exactly zero residual in exact arithmetic) and 1e-7",
+                  matrix_objects="dense arrays; scipy-sparse matrices of one fixed structure (every position stored, explicit zeros) "
+                                 "in the update histories with a changed zero pattern and in two plain histories",
+                  entry_points="update(A) after construction; constructor argument LDAWrapper(solver, A=A)"),
     "thorough": dict(n=[2, 3], classes=["general", "symmetric", "hermitian", "complex-symmetric"],
                      zero_patterns="n=2: all; n=3: all 64 general patterns for the short histories, a seeded third otherwise",
                      histories="quick histories + all ordered triples over {N,T,H} x {new, repeat, scale}",
